@@ -39,15 +39,22 @@ def replay(system, hist, want_key=False):
     """Rebuild the state reached by hist. Returns (ctx, model, problems_of_last_step[, key]).
     The state key is taken *before* the check runs: the check's own reads (probes, views) may fill caches, and a key
     computed afterwards would merge 'edit' with 'edit, then read' and hide stale-cache behaviour."""
+    from .watchdog import Timeout, limit
+
     ctx, model = system.fresh()
     problems = []
     key = None
-    for i, op in enumerate(hist):
-        model, obs = system.apply(ctx, model, op)
-        if i == len(hist) - 1:
-            if want_key:
-                key = system.key(ctx, model)
-            problems = system.check(ctx, model, op, obs)
+    try:
+        with limit(120):
+            for i, op in enumerate(hist):
+                model, obs = system.apply(ctx, model, op)
+                if i == len(hist) - 1:
+                    if want_key:
+                        key = system.key(ctx, model)
+                    problems = system.check(ctx, model, op, obs)
+    except Timeout as e:
+        problems = [("does-not-terminate", f"{e} while replaying this history")]
+        key = key or ("timeout", tuple(map(repr, hist)))
     if want_key:
         if not hist:
             key = system.key(ctx, model)
